@@ -3,15 +3,18 @@ package snapshot
 // C09 (b) the full-needed gate and (c) what a snapshot sink leaves behind.
 //
 //   VerifC09Gate      Sink.Write / processHeader with the header arriving in any split, the
-//                     snapshot-type controller as an interface model; then Close or Cancel
+//                     snapshot-type controller as an interface model; after a refused Write the
+//                     caller stops, goes on writing or offers the stream again; then Close or Cancel
 //   VerifC09Close     Sink.Close (incremental and full) with every step failing in turn - which for
 //                     an incremental snapshot ends the process - then a restart (Store.check) and
 //                     a catalog scan
 //   VerifC09History   sequences of snapshot attempts, "full needed" requests and restarts with
 //                     the real Store as the controller (FULL_NEEDED flag file)
 //
-// Protocol assumed of the caller (hashicorp/raft and the FSM snapshot): after a Write error the
-// sink is cancelled, not closed.
+// No protocol is assumed of the caller: hashicorp/raft and the FSM snapshot cancel a sink after
+// a Write error, but the property speaks of every sequence of create / write / close / cancel, so
+// VerifC09Gate and VerifC09History also close a sink whose Write was refused (and write to it
+// again before that). VerifC09Close / Abandon / CrashPoints start from an accepted stream.
 
 import (
 	"encoding/binary"
@@ -150,14 +153,24 @@ func vFullSinkWrite(s *FullSink, p []byte) (int, error) {
 	if !s.opened {
 		return 0, ErrSinkNotOpen
 	}
-	if uint64(len(p)) > s.remaining {
-		return 0, ErrUnexpectedData
+	if len(p) == 0 {
+		return 0, nil
 	}
-	n := vFS.nodes[s.dbFile]
-	vFS.tick("append " + s.dbFile)
-	n.data = append(n.data, p...)
-	s.remaining -= uint64(len(p))
-	return len(p), nil
+	// as the real sink: the announced bytes are taken, whatever follows them is refused
+	k := len(p)
+	if uint64(k) > s.remaining {
+		k = int(s.remaining)
+	}
+	if k > 0 {
+		n := vFS.nodes[s.dbFile]
+		vFS.tick("append " + s.dbFile)
+		n.data = append(n.data, p[:k]...)
+		s.remaining -= uint64(k)
+	}
+	if k < len(p) {
+		return k, ErrUnexpectedData
+	}
+	return k, nil
 }
 
 func vFullSinkClose(s *FullSink) error {
@@ -296,8 +309,9 @@ func vRestart(dir string) {
 
 // vCuts: where the stream may be cut, relative to its parts (the encodings of the two worlds
 // differ in length): inside the length prefix, at its end, inside the header, at its end, inside
-// the payload, at the very end.
-func vCuts(hlen, plen int) []int {
+// the announced payload, at its end, at the end of whatever follows it (xlen bytes nobody
+// announced).
+func vCuts(hlen, plen, xlen int) []int {
 	c := []int{1, HeaderSizeLen, HeaderSizeLen + 1, HeaderSizeLen + hlen - 1, HeaderSizeLen + hlen}
 	if plen > 0 {
 		c = append(c, HeaderSizeLen+hlen+1)
@@ -305,12 +319,17 @@ func vCuts(hlen, plen int) []int {
 			c = append(c, HeaderSizeLen+hlen+plen)
 		}
 	}
+	if xlen > 0 {
+		c = append(c, HeaderSizeLen+hlen+plen+xlen)
+	}
 	return c
 }
 
 // VerifC09Gate: an incremental header is accepted only if the controller does not ask for a
 // full snapshot, whatever the split of the stream; nothing but a completely and successfully
-// written snapshot is installed, and only that clears the requirement.
+// written snapshot is installed, and only that clears the requirement - whatever the caller does
+// with the sink after a Write was refused (stop, go on writing, offer the stream again; then
+// Close or Cancel).
 func VerifC09Gate() {
 	verifPanicsAreViolations()
 	kind := vChoice("kind", vHdrKinds)
@@ -332,27 +351,30 @@ func VerifC09Gate() {
 	}
 	gateOpen := stc.due != Full && stc.dueErr == nil
 
-	// the stream: length prefix, header, payload
+	// the stream: length prefix, header, the payload the header announces, optionally one byte
+	// nobody announced
 	hdr := w.headerBytes(kind)
-	var payload []byte
-	switch kind {
-	case vHdrFull:
+	var payload, extra []byte
+	if kind == vHdrFull {
 		payload = vSQLiteHdr
-	case vHdrIncremental:
+	}
+	if kind == vHdrFull || kind == vHdrIncremental {
 		if vChoice("trailing", 2) == 1 {
-			payload = []byte{0xEE}
+			extra = []byte{0xEE}
 		}
 	}
-	stream := make([]byte, HeaderSizeLen, HeaderSizeLen+len(hdr)+len(payload))
+	stream := make([]byte, HeaderSizeLen, HeaderSizeLen+len(hdr)+len(payload)+len(extra))
 	binary.BigEndian.PutUint32(stream, uint32(len(hdr)))
 	stream = append(stream, hdr...)
 	stream = append(stream, payload...)
+	stream = append(stream, extra...)
 	hdrEnd := HeaderSizeLen + len(hdr)
+	dataEnd := hdrEnd + len(payload)
 
 	// cut it into at most three writes; optionally the stream ends early
 	// (quick tier: every single cut, and three writes around the end of the header; thorough:
 	// every pair of cuts)
-	cuts := vCuts(len(hdr), len(payload))
+	cuts := vCuts(len(hdr), len(payload), len(extra))
 	i := vChoice("cut1", len(cuts))
 	j := i
 	if verifTier() == 1 {
@@ -374,17 +396,39 @@ func VerifC09Gate() {
 	verifAssert("C09-sink-open-ok", sink.Open() == nil)
 	verifAssert("C09-open-creates-only-a-temporary-directory", vIsDir(w.tmpPath()) && !vExists(w.finalPath()))
 
-	// what must happen, from the description of the stream alone
-	complete := sent == len(stream)
-	good := kind == vHdrFull && complete || kind == vHdrIncremental && sent == hdrEnd && gateOpen
+	// what must happen, from the description of the stream alone:
+	//   written  everything a snapshot consists of arrived and was acceptable (an incremental
+	//            header is acceptable only while no full snapshot is due)
+	//   good     ... and nothing else arrived: every Write must succeed, Close must install it
+	// A snapshot that is not `written` must never be installed, whatever the caller does.
+	written := kind == vHdrFull && sent >= dataEnd || kind == vHdrIncremental && sent >= hdrEnd && gateOpen
+	good := written && sent == dataEnd
 
-	failed := false
+	failed := false // some Write reported an error
 	for k := 1; k < len(bounds); k++ {
 		p := stream[bounds[k-1]:bounds[k]]
 		n, err := sink.Write(p)
+		if failed {
+			continue // the caller goes on writing after a refusal: no answer is prescribed
+		}
 		if err != nil {
 			failed = true
-			break
+			// what the caller does next: finish at once (0), offer the whole stream again (1),
+			// or go on with the rest of the stream (2)
+			opts := 2
+			if k < len(bounds)-1 {
+				opts = 3
+			}
+			after := vChoice("afterFail", opts)
+			if after == 1 {
+				sink.Write(stream)
+				verifReach("wrote-after-refusal")
+			}
+			if after != 2 {
+				break
+			}
+			verifReach("wrote-after-refusal")
+			continue
 		}
 		verifAssert("C09-write-consumes-everything-it-accepts", n == len(p))
 		if bounds[k] >= hdrEnd && kind == vHdrIncremental && !gateOpen {
@@ -411,11 +455,12 @@ func VerifC09Gate() {
 	verifAssert("C09-writes-never-touch-the-requirement", len(stc.sets) == 0)
 	verifAssert("C09-writes-never-publish", !vExists(w.finalPath()))
 
-	// finish: a failed write is followed by Cancel, otherwise the caller closes (or cancels)
-	cancel := failed || vChoice("finish", 2) == 1
+	// finish: the caller closes or cancels, also after a refused Write (hashicorp/raft cancels
+	// then; the property speaks of every sequence)
+	cancel := vChoice("finish", 2) == 1
 	// a full snapshot whose header arrived but whose data did not: finishing it reports the
 	// missing data (and may leave the temporary directory to the next start)
-	shortFull := kind == vHdrFull && sent >= hdrEnd && !complete
+	shortFull := kind == vHdrFull && sent >= hdrEnd && sent < dataEnd
 	var cerr error
 	if cancel {
 		cerr = sink.Cancel()
@@ -423,9 +468,21 @@ func VerifC09Gate() {
 		verifReach("cancelled")
 	} else {
 		died := vDies(func() { cerr = sink.Close() })
-		verifAssert("C09-close-does-not-die-without-faults", !died)
+		if !failed {
+			verifAssert("C09-close-does-not-die-without-faults", !died)
+		} else if died {
+			// a process that ends here is a crash like any other: the next start cleans up
+			vRestart(w.dir)
+		}
 	}
+	// Installed: a good stream that is closed must be; a written snapshot followed by bytes
+	// nobody announced (which Write refuses) may or may not be - the snapshot itself is whole;
+	// everything else must not be.
 	installed := good && !cancel
+	if written && !good && !cancel {
+		verifReach("closed-after-excess-data")
+		installed = vExists(w.finalPath())
+	}
 	want := append([]vSnap(nil), w.pre...)
 	if installed {
 		verifReach("installed")
@@ -437,10 +494,14 @@ func VerifC09Gate() {
 			ns.wals = 1
 		}
 		want = append(want, ns)
-		verifAssert("C09-close-ok-on-good-stream", cerr == nil)
+		if good {
+			verifAssert("C09-close-ok-on-good-stream", cerr == nil)
+		}
 		verifAssert("C09-requirement-cleared-once-by-install", len(stc.sets) == 1 && stc.sets[0] == Incremental)
 		verifAssert("C09-requirement-cleared-after-publication", stc.sawFinal && !stc.sawTmp)
-		verifAssert("C09-close-signals-reaper", len(ch) == 1)
+		if cerr == nil {
+			verifAssert("C09-close-signals-reaper", len(ch) == 1)
+		}
 	} else {
 		verifAssert("C09-requirement-cleared-only-by-install", len(stc.sets) == 0)
 		verifAssert("C09-nothing-published", !vExists(w.finalPath()))
@@ -448,10 +509,17 @@ func VerifC09Gate() {
 		if !cancel && shortFull {
 			verifReach("closed-short-full")
 			verifAssert("C09-close-of-short-full-snapshot-fails", cerr != nil)
+		} else if !cancel && failed {
+			// (what Close answers after a refused Write is not C09's subject)
+			verifReach("closed-after-refused-write")
+			if kind == vHdrIncremental && !gateOpen {
+				verifReach("closed-after-gate-refusal")
+			}
 		} else if !cancel {
 			verifReach("closed-without-header")
 			verifAssert("C09-header-never-completed", sent < hdrEnd)
-			verifAssert("C09-close-of-incomplete-stream-is-quiet", cerr == nil)
+			// (what Close answers for a stream that ended inside the header is C10's subject:
+			// since fix 37e7b49 it is an error; C09 only needs that nothing was published)
 		}
 		if kind == vHdrIncremental {
 			verifAssert("C09-refused-incremental-leaves-staged-wals", vExists(filepath.Join(w.walDir, vStagedWALs[0])))
@@ -790,9 +858,23 @@ func VerifC09History() {
 			} else {
 				verifAssert("C09-full-always-accepted", werr == nil)
 			}
+			if werr != nil && vChoice(verifName("again", step), 2) == 1 {
+				// the caller offers the refused payload once more
+				sink.Write(stream)
+				verifReach("history-wrote-after-refusal")
+			}
 			switch {
-			case werr != nil || finish == 1:
+			case finish == 1:
 				verifAssert("C09-cancel-ok", sink.Cancel() == nil)
+			case finish == 0 && werr != nil:
+				// Close after a refused Write (whatever it answers): nothing is installed, the
+				// requirement stays - checked below against the unchanged reference
+				verifReach("history-closed-after-refusal")
+				if vDies(func() { sink.Close() }) {
+					vRestart(dir)
+					st = vBareStore(dir)
+				}
+				verifAssert("C09-refused-snapshot-never-installed", !vExists(filepath.Join(dir, id)))
 			case finish == 0:
 				var cerr error
 				died := vDies(func() { cerr = sink.Close() })
@@ -813,4 +895,7 @@ func VerifC09History() {
 		vCheckCatalog("history", dir, installed, true)
 		verifAssert("C09-flag-file-follows-requirement", vExists(st.fullNeededPath) == fullNeeded)
 	}
+	due, err := st.DueNext()
+	verifAssert("C09-due-next-ok", err == nil)
+	verifAssert("C09-full-due-iff-needed-or-empty", (due == Full) == (fullNeeded || len(installed) == 0))
 }
